@@ -28,6 +28,7 @@ func runC18(c *Ctx) {
 	c.rule("M4", "logStreamer: each non-empty piece goes to exactly one of Log/LogError by the stream flag, no early exit, n=len(p); Stdout/Stderr get the out/err adapters over the command's loggers", 4)
 	c.rule("M6", "stop(): IsOn() is re-validated under the object's mutex before the command is stopped and an end message logged (exactly one end message per run across Execute and the monitor's Stop)", 1)
 	c.rule("M8", "the command of a subprocess is set up so that its pipes are read to the end: of the fields of exec.Cmd, WaitDelay (which makes Wait close the pipes and discard what was not read yet) is never set", 3)
+	c.rule("M10", "the composite the Output* family wraps the caller's loggers in keeps the streams apart: its Log forwards to every member's Log and its LogError to every member's LogError (the obligation C13/L4)", 2)
 	c.rule("M5", "Output*: the string returned is the content of the string logger combined into the subprocess's loggers, read after Execute", 1)
 
 	exec := c.fn(spPkg, "(*Subprocess).Execute")
@@ -200,6 +201,7 @@ func runC18(c *Ctx) {
 	c.c18Routing()
 	c.c18Output()
 	c.c18PipesDrained()
+	c.compositeForwards("M10", false)
 	c.c18RunsDoNotOverlap()
 	c.c18StopRecheck()
 }
